@@ -4,6 +4,7 @@
 EXTENDS Gating, ModSeeds, Json, IOUtils, TLC
 VARIABLE x
 Obs == ndJsonDeserialize(IOEnv.VERIF_OBS)
+fG == <<102,105,101,108,100,71>> fH == <<102,105,101,108,100,72>>
 fB == <<102,105,101,108,100,66>> fC == <<102,105,101,108,100,67>> fD == <<102,105,101,108,100,68>> fE == <<102,105,101,108,100,69>>
 t_ren == <<114,101,110>> t_st == <<115,116>>
 \* the probe rule AFTER the two preceding items (set_state k=v, id st ; fieldA -> fieldB, id ren)
@@ -11,7 +12,8 @@ Rule == [ls |-> [cat |-> <<99>>, prod |-> <<119,105,110,100,111,119,115>>, svc |
          tags |-> <<(<<97,116,116,97,99,107,46,116,49,48,48,48>>)>>, corr |-> FALSE,
          items |-> <<[field |-> fB, vals |-> <<VStr("str", <<102,111,111,STAR>>, <<>>), VStr("str", <<98,97,114>>, <<>>)>>, applied |-> <<t_ren>>],
                      [field |-> fC, vals |-> <<VNull>>, applied |-> <<>>],
-                     [field |-> fD, vals |-> <<VNum(<<5, 1>>)>>, applied |-> <<>>]>>,
+                     [field |-> fD, vals |-> <<VNum(<<5, 1>>)>>, applied |-> <<>>],
+                     [field |-> fG, vals |-> <<VFieldRef(fH, 0, 0)>>, applied |-> <<>>]>>,
          fields |-> <<[name |-> fB, applied |-> <<t_ren>>], [name |-> fE, applied |-> <<>>]>>,
          applied |-> <<t_st, t_ren>>, state |-> <<(<<(<<107>>), (<<118>>)>>)>>]
 \* ---- recorded deviation ------------------------------------------------------------------------
@@ -26,19 +28,40 @@ TrackedAfterFieldList(G, name) ==
     LET J == {j \in 1..Len(Rule.fields) : Rule.fields[j].name = name} IN
     IF J = {} THEN <<>>
     ELSE LET j == CHOOSE jj \in J : TRUE IN IF ActsOnFieldEntry(G, j, Rule) THEN <<>> ELSE Rule.fields[j].applied
-MechActsOnItem(G, j) ==
-    /\ ActsOnItem(G, j, Rule)
-    /\ FieldGateName(G, [name |-> Rule.items[j].field, applied |-> TrackedAfterFieldList(G, Rule.items[j].field)], Rule)
+\* ---- recorded deviation ------------------------------------------------------------------------
+\* Detection items that carry field references are pre-filtered as a whole: every single field
+\* condition is asked "do you hold for the item's field OR for any referenced field" and only then
+\* are linking / negation / the expression applied.  Under a negation (flag or `not`) this differs
+\* from evaluating the group on the one target name: a reference whose name makes a negated
+\* condition false shields the item's own field as well (and vice versa).
+RefNames(it) == {it.vals[k].s : k \in {kk \in 1..Len(it.vals) : it.vals[kk].t = "fieldref"}}
+PrefilterCond(c, it, rule) ==
+    IF c.t = "applied" THEN InSeq(c.s, it.applied)
+    ELSE FieldCond(c, it.field, it.applied, rule) \/ \E n \in RefNames(it) : FieldCond(c, n, <<>>, rule)
+Prefilter(G, it, rule) == GroupHolds(G.field, [i \in 1..Len(G.field.conds) |-> PrefilterCond(G.field.conds[i], it, rule)])
+SecondCheck(G, name) == FieldGateName(G, [name |-> name, applied |-> TrackedAfterFieldList(G, name)], Rule)
+\* mechanism with the ideal per-target first check (only the second check deviates) ...
+MechActsOnItem(G, j) == ActsOnItem(G, j, Rule) /\ SecondCheck(G, Rule.items[j].field)
+MechActsOnRef(G, j, n) == ActsOnFieldRef(G, j, n, Rule) /\ SecondCheck(G, n)
+\* ... and with the whole-item pre-filter as well
+PreGate(G, j) == RuleGate(G, Rule) /\ ItemGate(G, Rule.items[j], Rule) /\ Prefilter(G, Rule.items[j], Rule)
+MechPActsOnItem(G, j) == PreGate(G, j) /\ SecondCheck(G, Rule.items[j].field)
+MechPActsOnRef(G, j, n) == PreGate(G, j) /\ SecondCheck(G, n)
 
 Clause(o) ==
     IF ~o.ret.ok THEN (IF o.ret.sigma THEN "GateConfigurationRejected" ELSE "NonSigmaException")
-    ELSE IF \E j \in 1..3 : o.ret.out.items[j] # ActsOnItem(o.G, j, Rule) THEN
-        (IF HasApplied(o.G.field) /\ \A j \in 1..3 : o.ret.out.items[j] = MechActsOnItem(o.G, j)
-         THEN "dev:Dev_FieldAppliedConditionSecondCheck" ELSE "GateIff:detection-item")
+    ELSE IF (\E j \in 1..4 : o.ret.out.items[j] # ActsOnItem(o.G, j, Rule)) \/ o.ret.out.refs # <<ActsOnFieldRef(o.G, 4, fH, Rule)>> THEN
+        (IF HasApplied(o.G.field) /\ (\A j \in 1..4 : o.ret.out.items[j] = MechActsOnItem(o.G, j))
+                                 /\ o.ret.out.refs = <<MechActsOnRef(o.G, 4, fH)>>
+         THEN "dev:Dev_FieldAppliedConditionSecondCheck"
+         ELSE IF (\A j \in 1..4 : o.ret.out.items[j] = MechPActsOnItem(o.G, j)) /\ o.ret.out.refs = <<MechPActsOnRef(o.G, 4, fH)>>
+         THEN "dev:Dev_FieldGroupPrefilterOverReferences"
+         ELSE IF \E j \in 1..4 : o.ret.out.items[j] # ActsOnItem(o.G, j, Rule) THEN "GateIff:detection-item"
+         ELSE "GateIff:field-reference")
     ELSE IF \E j \in 1..2 : o.ret.out.fields[j] # ActsOnFieldEntry(o.G, j, Rule) THEN "GateIff:field-list"
     ELSE IF o.ret.out.rule # ActsOnRule(o.G, Rule) THEN "GateIff:rule"
     ELSE ""
-IsDev(c) == c = "dev:Dev_FieldAppliedConditionSecondCheck"
+IsDev(c) == c \in {"dev:Dev_FieldAppliedConditionSecondCheck", "dev:Dev_FieldGroupPrefilterOverReferences"}
 Verdict(o) == LET c == Clause(o) IN [id |-> o.id, v |-> IF c = "" THEN "ok" ELSE IF IsDev(c) THEN c ELSE "violation:" \o c]
 ASSUME ndJsonSerialize(IOEnv.VERIF_OUT, [i \in 1..Len(Obs) |-> Verdict(Obs[i])])
 Init == x = 0
